@@ -2778,7 +2778,229 @@ def dethist_cases(chk):
     return out
 
 
+# ------------------------------------------------------------------------------------------------
+# O. the FAMILY OF COPIES of one detector: obj_i.detect(n) at changing min_p, obj_i.copy(), obj_i.clear_cache()
+#    (Model/C08Copy.lean: heap of dictionaries and objects; detect_copy_history_eq_fresh, bs_copy_history_eq_fresh)
+# ------------------------------------------------------------------------------------------------
+def detheap_valid(steps):
+    k = 1
+    for st in steps:
+        if st[1] >= k:
+            return False
+        if st[0] == "copy":
+            k += 1
+    return True
+
+
+def detheap_canon(cells):
+    """partition of the objects by the dictionary they are bound to: index of the first object bound to the same one"""
+    first = {}
+    return [first.setdefault(c, i) for i, c in enumerate(cells)]
+
+
+def detheap_observe(case):
+    """run the history on the real code: [(canonical output | None, heap structure | None)]"""
+    objs = [build_det(case["det"])]
+    outs = []
+    for st in case["steps"]:
+        out = None
+        if st[0] == "detect":
+            with MinP(None if st[2] is None else float(dethist_minp(st[2]))):
+                out = py_out(objs[st[1]].detect(st[3]))
+        elif st[0] == "copy":
+            objs.append(objs[st[1]].copy())
+        elif st[0] == "clear":
+            objs[st[1]].clear_cache()
+        else:
+            raise ValueError(st)
+        struct = None
+        if all(isinstance(getattr(o, "_cache", None), dict) and hasattr(o, "_cache_min_p") for o in objs):
+            struct = {"cells": detheap_canon([id(o._cache) for o in objs]),
+                      "marks": [o._cache_min_p for o in objs],
+                      "keys": [sorted(o._cache.keys()) for o in objs]}
+        outs.append((out, struct))
+    return outs
+
+
+def detheap_oracle(case, outs):
+    """the property evaluated directly: whichever object answers and whatever was written into a shared dictionary
+    before, detect(n) is the click law with exactly the contributions not above the CURRENT min_p removed"""
+    d = case["det"]
+    for i, st in enumerate(case["steps"]):
+        if st[0] != "detect":
+            continue
+        exp = dict(asis_kernel(d, st[3], dethist_minp(st[2]), Margin()))
+        got = outs[i][0]
+        why = cmp_dist({got["state"]: 1.0} if "state" in got else got["dist"], exp)
+        if why is not None:
+            return i, why
+    return None
+
+
+def run_detheap_case(chk, case):
+    d, steps = case["det"], case["steps"]
+    if not detheap_valid(steps):
+        raise ValueError(f"detheap: step names a missing object: {steps}")
+    mg = Margin()
+    for st in steps:
+        if st[0] == "detect":
+            asis_kernel(d, st[3], dethist_minp(st[2]), mg)
+    if mg.m < 1e-9:
+        chk.count("detheap_skipped", "comparison-too-close")
+        return None
+    label = f"the copies of ONE {det_label(d)} detector {json.dumps(d)}"
+    try:
+        outs = detheap_observe(case)
+    except Exception as e:
+        return ("violation", "detector-history-raises", f"history {steps} on {label} raised {type(e).__name__}: {e}", case)
+    bad = detheap_oracle(case, outs)
+    if bad is not None:
+        i, why = bad
+
+        def fails(c):
+            try:
+                return detheap_valid(c["steps"]) and detheap_oracle(c, detheap_observe(c)) is not None
+            except Exception:
+                return False
+        small = dict(case, steps=steps[:i + 1])
+        changed = True
+        while changed:
+            changed = False
+            for k in range(len(small["steps"]) - 1):
+                c = dict(small, steps=small["steps"][:k] + small["steps"][k + 1:])
+                if fails(c):
+                    small, changed = c, True
+                    break
+        st = small["steps"][-1]
+        shared = any(s[0] == "copy" for s in small["steps"])
+        earlier = any(s[0] == "detect" for s in small["steps"][:-1])
+        sig = "detector-copy-shared-cache" if shared else ("detector-cache-stale-minp" if earlier else "detect-click-law-minp")
+        return ("violation", sig,
+                f"{label}: after {small['steps'][:-1]} the call obj{st[1]}.detect({st[3]}) at "
+                f"min_p={float(dethist_minp(st[2]))!r} does not return the click law of its description at the current min_p: "
+                f"{why}", small)
+    lsteps = [[st[0], st[1], core.rat(dethist_minp(st[2])), st[3]] if st[0] == "detect" else [st[0], st[1]] for st in steps]
+    req = {"op": "heap", "steps": lsteps}
+    if d["k"] == "bs":
+        req.update(L=d["L"], r=core.rat(r_float(d)))
+    else:
+        ld = lean_det(d)
+        req.update(wires=ld["w"], max=ld["max"])
+    rep = chk.lean.ask(req)
+    if "err" in rep:
+        return ("broken", "model-vs-code", f"{label}: model rejects the history ({rep['err']})", case)
+    msteps = rep["steps"]
+    for i, st in enumerate(steps):
+        if st[0] != "detect":
+            continue
+        if msteps[i]["out"] is None:
+            return ("broken", "model-vs-code", f"{label}: the model does not answer step {i + 1} {st}", case)
+        why = cmp_out(outs[i][0], lean_out(msteps[i]["out"]))
+        if why is not None:
+            return ("broken", "model-vs-code", f"{label}: step {i + 1} {st} vs model: {why}", dict(case, steps=steps[:i + 1]))
+    # the aliasing structure (which objects are bound to the same dictionary, markers, stored photon counts) as the model
+    # has it against the private attributes of the real objects.  Counted, not an alarm: a value-preserving rewrite may
+    # change the aliasing (e.g. clear_cache() emptying the dictionary in place), and the answers are judged above.
+    for i, st in enumerate(steps):
+        real = outs[i][1]
+        if real is None:
+            chk.count("detheap_structure", "unobservable")
+            continue
+        m = msteps[i]
+        ok = (detheap_canon(m["cells"]) == real["cells"] and m["keys"] == real["keys"]
+              and len(m["marks"]) == len(real["marks"])
+              and all((a is None and b is None) or (a is not None and b is not None and float(Fraction(a)) == float(b))
+                      for a, b in zip(m["marks"], real["marks"])))
+        chk.count("detheap_structure", "agrees" if ok else "differs")
+        if ok:
+            chk.branch("heap-structure-compared")
+    # branch counters (from the model's heap, which the answers above were compared through)
+    chk.branch("heap")
+    chk.branch("heap-bs" if d["k"] == "bs" else "heap-interleaved")
+    prev = {"cells": [0], "keys": [[]], "marks": [None]}
+    writer = {}
+    for i, st in enumerate(steps):
+        m = msteps[i]
+        o = st[1]
+        if st[0] == "copy":
+            chk.branch("heap-copy")
+            if not any(s2[0] == "detect" and s2[3] >= 2 for s2 in steps[:i]):
+                chk.branch("heap-copy-before-first-detect")
+            if o > 0:
+                chk.branch("heap-copy-of-copy")
+            if i > 0 and prev["keys"][o] == [] and prev["marks"][o] is not None:
+                chk.branch("heap-copy-of-emptied-dictionary")
+        elif st[0] == "clear":
+            if prev["cells"].count(prev["cells"][o]) > 1:
+                chk.branch("heap-unshare-on-clear")
+        elif st[3] >= 2 and d["k"] in ("bs", "ppnr") and not (d["k"] == "ppnr" and d["w"] == 1):
+            n = st[3]
+            rebound = m["cells"][o] != prev["cells"][o]
+            if rebound and prev["cells"].count(prev["cells"][o]) > 1:
+                chk.branch("heap-unshare-on-sync")
+            if not rebound and n in prev["keys"][o]:
+                if writer.get((m["cells"][o], n), o) != o:
+                    chk.branch("heap-hit-on-entry-written-by-another-object")
+            else:
+                writer[(m["cells"][o], n)] = o
+                if any(j != o and m["cells"][j] == m["cells"][o] for j in range(len(m["cells"]))):
+                    chk.branch("heap-write-seen-by-sharer")
+        prev = m
+    chk.case(("detheap", json.dumps(d, sort_keys=True), json.dumps(steps)), nontrivial=True,
+             sample={"detector": d, "steps": steps[:6]})
+    return None
+
+
+def detheap_cases(chk):
+    rng = chk.rng
+    out = []
+    for d, n, n2, q in [({"k": "bs", "L": 2, "r": [1, 2]}, 3, 2, [1, 20]), ({"k": "bs", "L": 1, "r": [9, 25]}, 2, 3, [1, 5]),
+                        ({"k": "ppnr", "w": 4, "max": 3}, 3, 4, [1, 5]), ({"k": "ppnr", "w": 3, "max": None}, 4, 5, [1, 20])]:
+        steps = [["detect", 0, q, n], ["copy", 0], ["detect", 1, q, n2], ["detect", 0, q, n2], ["detect", 1, None, n],
+                 ["detect", 0, q, n], ["copy", 1], ["detect", 2, None, n2], ["detect", 1, q, n2], ["detect", 2, None, n]]
+        if d["k"] == "bs":
+            # clear_cache() leaves an EMPTY dictionary with the marker still set; a copy taken now shares it
+            steps += [["clear", 2], ["copy", 2], ["detect", 2, q, n], ["detect", 3, None, n], ["detect", 1, None, n2],
+                      ["detect", 2, q, n], ["detect", 2, None, n]]
+        out.append({"det": d, "steps": steps})
+        # a copy taken BEFORE the first detect: both objects still carry _cache_min_p = None and share the initial dictionary
+        out.append({"det": d, "steps": [["copy", 0], ["detect", 0, q, n], ["detect", 1, None, n], ["detect", 0, q, n],
+                                        ["copy", 1], ["detect", 2, q, n], ["detect", 1, None, n]]})
+    for t in range(chk.pick(30, 250)):
+        d = gen_det(rng, rng.choice(["interleaved", "bs"]))
+        if d["k"] == "ppnr" and d["w"] == 1:
+            continue
+        ns = rng.sample([2, 3, 4] if d["k"] == "bs" else [2, 3, 4, 5], 2)
+        cuts = []
+        for n in ns:
+            vals = [v for v in dethist_cut_values(d, n) if v > 0]
+            for a, b in zip([Fraction(0)] + vals, vals):
+                cuts.append((a + b) / 2)
+        cuts = [c for c in cuts if c > 0]
+        qs = [None] + [[c.numerator, c.denominator] for c in rng.sample(cuts, min(len(cuts), 2))]
+        steps = [["detect", 0, copy.deepcopy(rng.choice(qs)), ns[0]], ["copy", 0]]
+        if rng.random() < 0.35:
+            steps.reverse()
+        k = 2
+        for _ in range(rng.randint(4, 10)):
+            x = rng.random()
+            o = rng.randrange(k)
+            if x < 0.1 and d["k"] == "bs":
+                steps.append(["clear", o])
+            elif x < 0.25 and k < 4:
+                steps.append(["copy", o])
+                k += 1
+            else:
+                steps.append(["detect", o, copy.deepcopy(rng.choice(qs)), rng.choice(ns + ns + [rng.choice([0, 1])])])
+        for o in range(k):
+            steps.append(["detect", o, None, ns[0]])
+        out.append({"det": d, "steps": steps})
+    return out
+
+
 def dispatch(chk, kind, case):
+    if kind == "detheap":
+        return run_detheap_case(chk, case)
     if kind == "detect":
         return run_detect_case(chk, case)
     if kind == "bs":
@@ -2846,6 +3068,9 @@ def run(chk: core.Check):
                 "members' theoretical probabilities. "
                 "One interleaved / beam-splitter-tree instance through 4-12 operations: detect(n) at the shipped min_p and at "
                 "cut-offs between the probabilities the code compares with min_p, clear_cache(), copy(), back to the original. "
+                "The family of copies of one interleaved / tree detector (up to 4 objects) through 10-20 operations "
+                "obj_i.detect(n) at changing min_p / obj_i.copy() / obj_i.clear_cache(): every answer against the exact oracle at "
+                "the current min_p and against the heap model (op heap); aliasing structure against the model, counted. "
                 "distinct = distinct (detector, photons) / (kinds, states, filter) "
                 "signatures; non-trivial = a multi-wire or tree detector hit by >=2 photons, resp. a non-PNR list on a "
                 "distribution with a >=2-photon state")
@@ -2868,8 +3093,11 @@ def run(chk: core.Check):
         "(floats read as exact rationals); the oracle (mixture of per-member conditioned laws) is evaluated at precision 0, "
         "cases with precision > 0 are compared with the model only",
         "histories with a changing min_p: the oracle is the exact 'kept iff above the CURRENT min_p' law in Fractions; histories "
-        "in which a compared probability is closer than 1e-9 relative to a min_p value are skipped and counted; copy() is not an "
-        "operation of the model (the model's answers do not depend on it), it is judged by the oracle",
+        "in which a compared probability is closer than 1e-9 relative to a min_p value are skipped and counted; in the single-instance "
+        "histories copy() is judged by the oracle; in the copy-family histories (detheap) copy() is an operation of the heap model "
+        "(Model/C08Copy.lean) and the model's aliasing structure (which objects share a dictionary, _cache_min_p, stored photon "
+        "counts) is compared with the private attributes of the real objects where they exist: that comparison is COUNTED "
+        "(detheap_structure), not an alarm, since a value-preserving rewrite may change the aliasing",
         "simulate_detectors_sample at a changed min_p with an EMPTY per-mode dictionary follows the characterised restart rule "
         "(sample_restarts_after_empty_kernel); this is a quirk at min_p >= 1/(number of readings), not reported as a defect",
         "the all-PNR branch of simulate_detectors returns its input without applying the photon filter "
@@ -2918,7 +3146,12 @@ def run(chk: core.Check):
                              "mix-pnr-law-at-precision", "mix-pnr-law-member-trimmed",
                              # one instance through detect calls at changing min_p
                              "dethist", "dethist-bs", "dethist-interleaved", "dethist-clear", "dethist-copy",
-                             "dethist-stale-would-differ", "dethist-minp-lowered", "dethist-minp-raised"]
+                             "dethist-stale-would-differ", "dethist-minp-lowered", "dethist-minp-raised",
+                             # the family of copies of one detector (copy() as a model operation)
+                             "heap", "heap-bs", "heap-interleaved", "heap-copy", "heap-copy-of-copy",
+                             "heap-copy-before-first-detect", "heap-copy-of-emptied-dictionary",
+                             "heap-unshare-on-sync", "heap-unshare-on-clear", "heap-write-seen-by-sharer",
+                             "heap-hit-on-entry-written-by-another-object"]
     rng = chk.rng
     for kind, case in load_corpus():
         if kind == "sim":
@@ -2971,6 +3204,7 @@ def run(chk: core.Check):
     go("sampleminp", sampleminp_cases(chk))
     go("mix", mix_cases(chk))
     go("dethist", dethist_cases(chk))
+    go("detheap", detheap_cases(chk))
     chk.exhaustive = False
     chk.extra["exhaustive_parts"] = {
         "Detector.detect": f"all 0<=max<=w<={chk.pick(8, 14)} and max=None, n<={chk.pick(10, 18)}",
